@@ -168,11 +168,9 @@ def binary_layout(ctx, r, F, envs):
            cfg=F.key, where=slc.where())
     # forwards to the array impl of the same type
     for ob in F.method("try_from", "hash::FuzzyHash<"):
-        ps = cmpmodel.ret_paths(ob)
-        e = n(ps[0].ret) if len(ps) == 1 else None
-        m = match(("call", "core::result::Result::<T, E>::map", (("call", "core::convert::TryFrom::try_from", (P(1),)), ("fn", V("f")))), e) if e else None
+        why = common.wrapper_forwards(F, ob, "core::convert::TryFrom::try_from", 1)
         ctx.instance(r)
-        ctx.ob(r, ("hash::FuzzyHash::try_from", "forwards"), bool(m) and m["f"].endswith("::new"), "outer try_from is %s" % (sym.fmt(e) if e else e), cfg=F.key, where=ob.where())
+        ctx.ob(r, ("hash::FuzzyHash::try_from", "forwards"), why is None, "outer try_from: %s" % why, cfg=F.key, where=ob.where())
 
 
 def accessors(ctx, r, F):
